@@ -22,6 +22,7 @@ package tree
 //@   ensures result != nil && fresh(result)
 
 //@ func BuildTree(values, jsonRFC7951) (doc, err)
+//@   ensures errWF(err)
 //@   trusted
 //@   modifies nothing
 //@   ensures err == nil ==> fresh(doc)
